@@ -339,6 +339,39 @@ def obligations(tier):
     FAM = families()
 
     # =============================================================================================
+    # (0) resolution keeps every NON-parameter attribute of a gate: global shifts of the gate families
+    # =============================================================================================
+    SHIFTED = [
+        ('XPowGate', lambda e, sh: cirq.XPowGate(exponent=e, global_shift=sh), lambda e, p, sh: D.X(e, sh)),
+        ('ZPowGate', lambda e, sh: cirq.ZPowGate(exponent=e, global_shift=sh), lambda e, p, sh: D.Z(e, sh)),
+        ('CZPowGate', lambda e, sh: cirq.CZPowGate(exponent=e, global_shift=sh), lambda e, p, sh: D.CZ(e, sh)),
+        ('ISwapPowGate', lambda e, sh: cirq.ISwapPowGate(exponent=e, global_shift=sh), lambda e, p, sh: D.ISWAP(e, sh)),
+        ('XXPowGate', lambda e, sh: cirq.XXPowGate(exponent=e, global_shift=sh), lambda e, p, sh: D.XX(e, sh)),
+        ('PhasedXPowGate', lambda e, sh: cirq.PhasedXPowGate(exponent=e, phase_exponent=sympy.Symbol('p'), global_shift=sh), lambda e, p, sh: D.phased_x(e, p, sh)),
+        ('PhasedISwapPowGate', lambda e, sh: cirq.PhasedISwapPowGate(exponent=e, phase_exponent=sympy.Symbol('p'), global_shift=sh), lambda e, p, sh: D.phased_iswap(p, e, sh)),
+    ]
+
+    def shifted_body(cx, wrong=False):
+        name, mk, doc = SHIFTED[cx.choose('gate', len(SHIFTED))]
+        ve, vp = cx.real('ve', -B, B), cx.real('vp', -B, B)
+        # (the global shift enters the period computation of EigenGates through math.gcd / %: menu, not symbolic)
+        sh = [0.25, -0.5, 0.1, 0.0][cx.choose('shift', 4)]
+        g = mk(sympy.Symbol('e'), sh)
+        how = cx.choose('how', 3)
+        res = cirq.ParamResolver({'e': ve, 'p': vp})
+        if how == 0:
+            r = cirq.resolve_parameters(g, res)
+        elif how == 1:
+            r = cirq.resolve_parameters_once(g, res)
+        else:
+            r = cirq.resolve_parameters(cirq.Circuit(g.on(*cirq.LineQubit.range(cirq.num_qubits(g)))), res).moments[0].operations[0].gate
+        cx.check(not cirq.is_parameterized(r), label=f'{name}: resolved gate is not parameterized')
+        M = doc(ve, vp, sh)
+        cx.close(cirq.unitary(r), perturb(M) if wrong else M, label=f'{name}: unitary of the resolved gate == documented matrix at the assigned values INCLUDING the global shift')
+
+    obs.append(Obligation('resolve.shifted_gates', shifted_body, twin=lambda cx: shifted_body(cx, wrong=True), opts={'weight': 3}, desc='resolve_parameters / resolve_parameters_once / resolution through a Circuit of 7 gate families built with a global_shift from a menu of 4 and Symbol exponent / phase: the resolved gate has the documented matrix at the assigned SYMBOLIC values, including exp(i pi shift exponent)'))
+
+    # =============================================================================================
     # (1) ParamResolver.value_of on expression templates, symbolic assigned values
     # =============================================================================================
     def value_of_body(cx, wrong=False):
